@@ -62,7 +62,7 @@ def run(ctx):
         "RealKinds": set(range(1, 16)),
         "RealPlaces": set(rnd.sample(range(1, 52), 24)) if q else set(range(1, 52)),
         "RealSizes": set(rnd.sample(range(12), 8)) if q else set(range(12)),
-        "RealEvery": 12 if q else 2,
+        "RealEvery": 12 if q else 4,
         "RectEvery": 40 if q else 3,
         "RectOff": rnd.randrange(3),
         "ObsFile": '""',
@@ -94,8 +94,11 @@ def run(ctx):
         # every region under a top-level face with the harness region and root bound ...
         chunks.append({"op": "coverchunk", "cfgs": cfgs, "roots": [_anchor(rnd, 0)], "impl": "disc", "bound": "root",
                        "obsevery": obs_every, "regions": ch})
-        # ... and once more under a second embedding / implementation of the region
-        m = k % 4
+        # ... and (every chunk in quick, every other chunk in thorough) once more under a second
+        # embedding / implementation of the region
+        if not q and k % 2 == 1:
+            continue
+        m = (k // (1 if q else 2)) % 4
         if m == 0:
             extra = {"roots": [_anchor(rnd, 26)], "impl": "disc", "bound": "root"}
         elif m == 1:
